@@ -66,6 +66,10 @@ def harness(eng, ctx):
     gen = pf.generate_rise_pestfiles if which == 'rise' else pf.generate_curves_pestfiles
     texts = {}
     try:
+        # an earlier call in the same process with another (public) precision must not leak
+        # into the files generated afterwards
+        gen(conn, io.StringIO(params), 'pst', None, io.StringIO(), precision=6)
+        eng.__dict__['fmt_tokens'] = {}
         for ft in ('tpl', 'ins', 'pst'):
             out = io.StringIO()
             gen(conn, io.StringIO(params), ft, None, out)
@@ -451,6 +455,49 @@ def recession_order_problems(params):
     return out
 
 
+_SEQ_SCRIPT = r'''
+import io, sqlite3, sys
+sys.path.insert(0, sys.argv[1])
+import spowtd.pestfiles as pf
+db, which, params = sys.argv[2], sys.argv[3], open(sys.argv[4]).read()
+con = sqlite3.connect(db)
+g = pf.generate_rise_pestfiles if which == 'rise' else pf.generate_curves_pestfiles
+g(con, io.StringIO(params), 'pst', None, io.StringIO(), precision=6)
+buf = io.StringIO()
+g(con, io.StringIO(params), 'pst', None, buf)
+want = [r[0] for r in con.execute('SELECT mean_crossing_depth_mm FROM average_rising_depth ORDER BY zeta_mm')]
+if which == 'curves':
+    want += [r[0] for r in con.execute('SELECT CAST(elapsed_time_s AS double precision) / (3600 * 24) FROM average_recession_time ORDER BY zeta_mm DESC')]
+obs = []
+on = False
+for ln in buf.getvalue().splitlines():
+    if ln.startswith('* '):
+        on = ln.strip() == '* observation data'
+        continue
+    if on and ln.strip():
+        obs.append(float(ln.split()[1]))
+bad = sum(1 for a, b in zip(obs, want) if a != b)
+print('BAD' if (len(obs) != len(want) or bad) else 'OK', bad, len(obs), len(want))
+'''
+
+
+def precision_sequence_problems(which, params):
+    import subprocess
+    import sys as _sys
+    rr3 = sim_common.real_workflow_run(synth.planted_record(step_s=3600, recessions=((1, 7), (0, 8), (3, 9)), sy=Fraction(1, 3)))
+    try:
+        pp = rr3.write_text('seq_params.yml', params)
+        sp = rr3.write_text('seq.py', _SEQ_SCRIPT)
+        out = subprocess.run([_sys.executable, sp, loader.REPO, rr3.db, which, pp], capture_output=True, text=True, timeout=600)
+    finally:
+        rr3.close()
+    if out.stdout.strip().startswith('BAD'):
+        return ['after a call with precision=6 in the same process the default control file no longer holds the exact values (%s)' % out.stdout.strip()]
+    if not out.stdout.strip().startswith('OK'):
+        return ['precision sequence could not be run: %s' % (out.stderr.strip()[-200:],)]
+    return []
+
+
 def replay_files(failure):
     """Real CLI: generate the three files and the simulator output on the planted dataset and
     re-check counts, names, order and levels concretely."""
@@ -502,6 +549,9 @@ def replay_files(failure):
         probs += recession_order_problems(params)
         if kind == 'spline':
             probs += recession_order_problems(OSCILLATING_PARAMS)
+    # a call with another precision earlier in the same process (library API); run in a fresh
+    # interpreter so that nothing generated above has warmed any module-level state
+    probs += precision_sequence_problems(which, params)
     ins = [l for l in texts['ins'].split('\n') if l.startswith('l1')]
     nsim = len(yaml.safe_load(sim_rise)) + (len(yaml.safe_load(sim_rec)) if sim_rec else 0)
     if len(ins) != nsim or len(ins) != len(odata):
